@@ -3,9 +3,13 @@
 State   = canonical model state: (monomial over atoms, accumulated scale magnitude, prefix wrapper)
 Trans.  = one application of an algebra operation to a state's first-found C++ type
 Oracle  = vf/model.py exact exponent vectors; every transition is replayed on the real headers.
+
+C18 re-uses `atoms_for`, `State`, `successors`, `in_bounds` and `dim_mag` with its own menus: their behaviour for the
+menu keys C18 passes (binary / pow / root / scale / prefix) is part of this module's interface.
 """
 import itertools
 import os
+import re
 from fractions import Fraction as Fr
 
 from .. import core, model, psx
@@ -25,6 +29,8 @@ constexpr auto zorks = au::QuantityMaker<Zorks>{};
 
 MAXNUM = 12
 DENS = (1, 2, 3, 6)
+DENS_C02 = (1, 2, 3, 4, 6)        # C02 also follows root<2> of root<2> (C18 keeps DENS)
+PT_MAKERS = {"meters": "au::meters_pt", "celsius": "au::celsius_pt", "kelvins": "au::kelvins_pt", "fahrenheit": "au::fahrenheit_pt"}
 
 
 def atoms_for(tier):
@@ -39,13 +45,27 @@ def atoms_for(tier):
     return a
 
 
+def atoms_c02(tier):
+    """(atoms, n_bin): the first n_bin atoms take part in binary menus and grouping triples; the rest are prefixed
+    *start states* (Kilo<Meters>, Milli<Seconds>, Kibi<Feet>) that are expanded one level (pow/root/binary/scale/prefix)."""
+    a = atoms_for(tier)
+    if tier == "quick":
+        a.append(U["degrees"])      # a named unit with an irrational (pi/180) magnitude
+    n_bin = len(a)
+    P = {p[0]: p for p in model.ALL_PREFIXES}
+    for p, stem in (("Kilo", "meters"), ("Milli", "seconds"), ("Kibi", "feet")):
+        a.append(model.prefixed(P[p], U[stem]))
+    return a, n_bin
+
+
 class State:
-    __slots__ = ("mono", "scale", "wrap", "expr", "depth", "sid", "leaf", "path")
+    __slots__ = ("mono", "scale", "wrap", "expr", "depth", "sid", "leaf", "path", "expand")
 
     def __init__(self, mono, scale, wrap, expr, depth, path):
         self.mono, self.scale, self.wrap, self.expr, self.depth, self.path = mono, scale, wrap, expr, depth, path
         self.leaf = wrap is not None
         self.sid = None
+        self.expand = True      # C02: False for states reached only through the extra (state x state, pow<N/D>) transitions
 
     def canonical_type(self):
         return not self.scale and self.wrap is None
@@ -65,10 +85,10 @@ def dim_mag(atoms, st):
     return dim, mag
 
 
-def in_bounds(mono):
+def in_bounds(mono, dens=DENS):
     if len(mono) > 4:
         return False
-    return all(abs(e.numerator) <= MAXNUM and e.denominator in DENS for e in mono.values())
+    return all(abs(e.numerator) <= MAXNUM and e.denominator in dens for e in mono.values())
 
 
 SCALINGS = [("*mag2", "decltype(%s{} * au::mag<2>())", model.mag_int(2)),
@@ -96,12 +116,22 @@ def successors(atoms, st, menu):
                    "decltype(%s{} * %s{})" % (A, S))
             yield ("%s/" % atoms[i].name, model.vdiv(am, st.mono), model.vinv(st.scale), None,
                    "decltype(%s{} / %s{})" % (A, S))
+    # state x state: the right/left operand is itself a compound, powered or scaled unit
+    for olab, omono, oscale, O in menu.get("binary_state", ()):
+        yield ("*[%s]" % olab, model.vmul(st.mono, omono), model.vmul(st.scale, oscale), None, "decltype(%s{} * %s{})" % (S, O))
+        yield ("/[%s]" % olab, model.vdiv(st.mono, omono), model.vdiv(st.scale, oscale), None, "decltype(%s{} / %s{})" % (S, O))
+        yield ("[%s]*" % olab, model.vmul(omono, st.mono), model.vmul(oscale, st.scale), None, "decltype(%s{} * %s{})" % (O, S))
+        yield ("[%s]/" % olab, model.vdiv(omono, st.mono), model.vdiv(oscale, st.scale), None, "decltype(%s{} / %s{})" % (O, S))
     for k in menu.get("pow", ()):
         yield ("pow<%d>" % k, model.vpow(st.mono, k), model.vpow(st.scale, k), None,
                "decltype(au::pow<%d>(%s{}))" % (k, S))
     for k in menu.get("root", ()):
         yield ("root<%d>" % k, model.vpow(st.mono, Fr(1, k)), model.vpow(st.scale, Fr(1, k)), None,
                "decltype(au::root<%d>(%s{}))" % (k, S))
+    # one-step rational power with a numerator other than 1
+    for n, dd in menu.get("ratpow", ()):
+        yield ("pow<%d/%d>" % (n, dd), model.vpow(st.mono, Fr(n, dd)), model.vpow(st.scale, Fr(n, dd)), None,
+               "au::UnitPowerT<%s, %d, %d>" % (S, n, dd))
     if menu.get("scale"):
         for lab, tmpl, m in SCALINGS:
             yield (lab, st.mono, model.vmul(st.scale, m), None, tmpl % S)
@@ -109,20 +139,124 @@ def successors(atoms, st, menu):
         yield (p[0], st.mono, st.scale, (p, st.key()), "au::%s<%s>" % (p[0], S))
 
 
+def is_extra(lab):
+    """transition kinds whose target states are observed but not expanded further (keeps the graph near its round-2 size)"""
+    return "[" in lab or (lab.startswith("pow<") and "/" in lab)
+
+
+def operand_states(atoms):
+    """operand alphabet for the state x state transitions (non-integer exponents of the bases m, s, ft; compound and scaled operands)"""
+    ix = {a.name: i for i, a in enumerate(atoms)}
+    m, s, ft = ix["meters"], ix["seconds"], ix["feet"]
+    kg = [i for i, a in enumerate(atoms) if a.name.startswith("Kilo<grams")][0]
+    M, S, FT, KG = (atoms[i].cpp for i in (m, s, ft, kg))
+    h = Fr(1, 2)
+    return [("rt2(m)", {m: h}, {}, "decltype(au::root<2>(%s{}))" % M),
+            ("rt3(m)", {m: Fr(1, 3)}, {}, "decltype(au::root<3>(%s{}))" % M),
+            ("m^-2", {m: Fr(-2)}, {}, "decltype(au::pow<-2>(%s{}))" % M),
+            ("m^(2/3)", {m: Fr(2, 3)}, {}, "decltype(au::root<3>(au::pow<2>(%s{})))" % M),
+            ("1/rt2(m)", {m: -h}, {}, "decltype(au::pow<-1>(au::root<2>(%s{})))" % M),
+            ("m/s", {m: Fr(1), s: Fr(-1)}, {}, "decltype(%s{} / %s{})" % (M, S)),
+            ("m*s", {m: Fr(1), s: Fr(1)}, {}, "decltype(%s{} * %s{})" % (M, S)),
+            ("ft*2", {ft: Fr(1)}, model.mag_int(2), "decltype(%s{} * au::mag<2>())" % FT),
+            ("rt2(s)", {s: h}, {}, "decltype(au::root<2>(%s{}))" % S),
+            ("kg^2", {kg: Fr(2)}, {}, "decltype(au::pow<2>(%s{}))" % KG),
+            ("rt2(ft)", {ft: h}, {}, "decltype(au::root<2>(%s{}))" % FT),
+            ("1/s", {s: Fr(-1)}, {}, "decltype(au::pow<-1>(%s{}))" % S)], {m, s, ft}
+
+
+MAGS = [("mag3", "au::mag<3>()", model.mag_int(3)), ("5/7", "(au::mag<5>() / au::mag<7>())", model.mag_ratio(5, 7)),
+        ("pi", "au::Magnitude<au::Pi>{}", dict(model.MAG_PI))]
+
+
+def spelling_records(atoms, n_bin):
+    """[(description, [(form, unit-type spelling it must name)], slot)] — slot 'q' uses AssociatedUnitT, 'p' AssociatedUnitForPointsT"""
+    out = []
+    lib_atoms = [a for a in atoms[:n_bin] if a.maker]
+    C = lambda a: "au::make_constant(%s{})" % a.cpp
+    for a, b in itertools.product(lib_atoms, repeat=2):
+        for op in "*/":
+            X = "decltype(%s{} %s %s{})" % (a.cpp, op, b.cpp)
+            Xr = "decltype(%s{} %s %s{})" % (b.cpp, op, a.cpp)
+            e = 1 if op == "*" else -1
+            # value arithmetic whose result has the trivial unit (no dimension, magnitude ONE) returns a raw number by design
+            unitless = not model.vmul(a.dim, model.vpow(b.dim, e)) and not model.vmul(a.mag, model.vpow(b.mag, e))
+            forms = [("decltype(%s %s %s)" % (a.maker, op, b.maker), X),
+                     ("decltype(%s %s %s)" % (C(a), op, C(b)), X),
+                     ("decltype(au::make_constant(%s{} %s %s{}))" % (a.cpp, op, b.cpp), X),
+                     # cross-wrapper compositions (Pre- and PostcomposesWith): constant with maker / singular name, both orders
+                     ("decltype(%s %s %s)" % (C(a), op, b.maker), X), ("decltype(%s %s %s)" % (a.maker, op, C(b)), X)]
+            if not unitless:
+                # quantities: the unit of the result of value arithmetic, and wrapper-scales-quantity
+                forms += [("typename decltype(%s(1.0) %s %s(2.0))::Unit" % (a.maker, op, b.maker), X),
+                          ("typename decltype(%s(2.0f) %s %s)::Unit" % (a.maker, op, C(b)), X),
+                          ("typename decltype(%s %s %s(2.0f))::Unit" % (C(a), op, b.maker), X)]
+            if b.singular:
+                forms.append(("decltype(%s %s %s)" % (a.maker, op, b.singular), X) if op == "/" else ("decltype(%s * %s)" % (b.singular, a.maker), Xr))
+                forms.append(("decltype(%s %s %s)" % (C(a), op, b.singular), X))
+                forms.append(("decltype(%s %s %s)" % (b.singular, op, C(a)), Xr))
+            if a.singular and b.singular and op == "*":
+                forms.append(("decltype(%s * %s)" % (a.singular, b.singular), X))
+            if a.symbol and b.symbol:
+                forms.append(("decltype(%s %s %s)" % (a.symbol, op, b.symbol), X))
+                forms.append(("decltype(au::symbol_for(%s %s %s))" % (a.maker, op, b.maker), X))
+                if not unitless:
+                    forms.append(("typename decltype(2.0 * %s %s %s)::Unit" % (a.symbol, op, b.symbol), X))
+                    forms.append(("typename decltype(%s(2.0) %s %s)::Unit" % (a.maker, op, b.symbol), X))
+            out.append(("%s %s %s" % (a.name, op, b.name), forms, "q"))
+    for a in lib_atoms:
+        for k, alias in ((2, "squared"), (3, "cubed"), (-1, "inverse")):
+            X = "decltype(au::pow<%d>(%s{}))" % (k, a.cpp)
+            forms = [("decltype(au::pow<%d>(%s))" % (k, a.maker), X), ("decltype(au::%s(%s))" % (alias, a.maker), X),
+                     ("decltype(au::%s(%s{}))" % (alias, a.cpp), X), ("decltype(pow<%d>(%s))" % (k, C(a)), X),
+                     ("decltype(au::%s(%s))" % (alias, C(a)), X)]
+            if a.symbol:
+                forms += [("decltype(pow<%d>(%s))" % (k, a.symbol), X), ("decltype(au::%s(%s))" % (alias, a.symbol), X)]
+            if a.singular:
+                forms += [("decltype(au::pow<%d>(%s))" % (k, a.singular), X), ("decltype(au::%s(%s))" % (alias, a.singular), X)]
+            if k == -1:
+                forms.append(("typename decltype(1.0 / %s(2.0))::Unit" % a.maker, X))
+                if a.symbol:
+                    forms.append(("typename decltype(1.0 / %s)::Unit" % a.symbol, X))
+            else:
+                forms.append(("typename decltype(au::int_pow<%d>(%s(2.0)))::Unit" % (k, a.maker), X))
+            out.append(("pow<%d>(%s)" % (k, a.name), forms, "q"))
+        for k, alias in ((2, "sqrt"), (3, "cbrt")):
+            X = "decltype(au::root<%d>(%s{}))" % (k, a.cpp)
+            forms = [("decltype(au::root<%d>(%s))" % (k, a.maker), X), ("decltype(au::%s(%s{}))" % (alias, a.cpp), X),
+                     ("decltype(au::%s(%s))" % (alias, a.maker), X), ("decltype(root<%d>(%s))" % (k, C(a)), X),
+                     ("decltype(au::%s(%s))" % (alias, C(a)), X), ("au::UnitPowerT<%s, 1, %d>" % (a.cpp, k), X),
+                     ("typename decltype(au::%s(%s(2.0)))::Unit" % (alias, a.maker), X)]
+            if a.symbol:
+                forms += [("decltype(root<%d>(%s))" % (k, a.symbol), X), ("decltype(au::%s(%s))" % (alias, a.symbol), X)]
+            out.append(("root<%d>(%s)" % (k, a.name), forms, "q"))
+        # scaling a wrapper by a magnitude (CanScaleByMagnitude, QuantityMaker / QuantityPointMaker operators)
+        for mlab, M, _ in MAGS:
+            Xm, Xd, Xi = ("decltype(%s{} * %s)" % (a.cpp, M), "decltype(%s{} / %s)" % (a.cpp, M), "decltype(au::pow<-1>(%s{}) * %s)" % (a.cpp, M))
+            forms = [("decltype(%s * %s)" % (a.maker, M), Xm), ("decltype(%s / %s)" % (a.maker, M), Xd)]
+            for w in ([a.symbol] if a.symbol else []) + [C(a)]:
+                forms += [("decltype(%s * %s)" % (M, w), Xm), ("decltype(%s * %s)" % (w, M), Xm), ("decltype(%s / %s)" % (M, w), Xi), ("decltype(%s / %s)" % (w, M), Xd)]
+            out.append(("%s scaled by %s" % (a.name, mlab), forms, "q"))
+            if a.name in PT_MAKERS:
+                out.append(("%s_pt scaled by %s" % (a.name, mlab), [("decltype(%s * %s)" % (PT_MAKERS[a.name], M), Xm), ("decltype(%s / %s)" % (PT_MAKERS[a.name], M), Xd)], "p"))
+    return out
+
+
 def check(run):
     tier = run.tier
-    atoms = atoms_for(tier)
-    n_at = len(atoms)
-    full = {"binary": range(n_at), "pow": (-2, -1, 0, 1, 2, 3), "root": (2, 3), "scale": True,
-            "prefix": model.ALL_PREFIXES}
-    nopfx = dict(full, prefix=())
+    atoms, n_bin = atoms_c02(tier)
+    pfx_atoms = set(range(n_bin, len(atoms)))
+    operands, operand_bases = operand_states(atoms)
+    full = {"binary": range(n_bin), "binary_state": operands, "pow": (-3, -2, -1, 0, 1, 2, 3), "root": (2, 3),
+            "ratpow": ((2, 3), (3, 2), (-1, 2), (-2, 3), (3, 4)), "scale": True, "prefix": model.ALL_PREFIXES}
+    nobs = dict(full, binary_state=())
     if tier == "quick":
-        menus = {0: full, 1: dict(nopfx, prefix=model.ALL_PREFIXES[8:16:3])}
+        menus = {0: full, 1: dict(nobs, prefix=model.ALL_PREFIXES[8:16:3])}
         maxdepth = 2
     else:
         # depth 3 only from states over the four core atoms (meters, seconds, feet, kg) with a reduced menu:
         # the full depth-3 graph has 155 k states / 393 k transitions (measured) and is out of reach
-        menus = {0: full, 1: full, 2: {"binary": (0, 1), "pow": (2,), "scale": True}}
+        menus = {0: full, 1: nobs, 2: {"binary": (0, 1), "pow": (2,), "scale": True}}
         maxdepth = 3
     # ---- BFS over the model
     states, order, trans = {}, [], []
@@ -134,30 +268,40 @@ def check(run):
     frontier = list(order)
     for depth in range(maxdepth):
         nxt = []
-        menu = menus[depth]
         for st in frontier:
-            if st.leaf or (depth == 2 and not set(st.mono) <= {0, 1, 2, 4}):
+            if st.leaf or (depth == 2 and not set(st.mono) <= {0, 1, 2, 4}) or (depth >= 1 and set(st.mono) & pfx_atoms):
                 continue
+            menu = menus[depth]
+            if depth == 1 and st.mono and set(st.mono) <= operand_bases:
+                # state x state products where the same base meets itself with two (possibly non-integer) exponents
+                menu = dict(menu, binary_state=operands)
             for lab, mono, scale, wrap, expr in successors(atoms, st, menu):
-                if not in_bounds(mono):
+                if not in_bounds(mono, DENS_C02):
                     continue
                 t = State(mono, scale, wrap, expr, depth + 1, "%s %s" % (st.path, lab))
                 k = t.key()
                 if k not in states:
                     t.sid = len(order)
+                    t.expand = not is_extra(lab)
                     states[k] = t
                     order.append(t)
-                    nxt.append(t)
+                    if t.expand:
+                        nxt.append(t)
+                elif not is_extra(lab) and not states[k].expand and states[k].depth == depth + 1:
+                    states[k].expand = True
+                    nxt.append(states[k])
                 trans.append((st, lab, t, states[k]))
         frontier = nxt
     # ---- index by (dim,mag) and by dim for equivalence checks
     dm = {}
     for s in order:
-        dim, mag = dim_mag(atoms, s)
-        dm[s.sid] = (dim, mag)
-    by_dim = {}
+        dm[s.sid] = dim_mag(atoms, s)
+    by_dim, by_dm, by_mag = {}, {}, {}
     for s in order:
-        by_dim.setdefault(model.dim_key(dm[s.sid][0]), []).append(s)
+        dk, mk = model.dim_key(dm[s.sid][0]), model.mag_key(dm[s.sid][1])
+        by_dim.setdefault(dk, []).append(s)
+        by_dm.setdefault((dk, mk), []).append(s)
+        by_mag.setdefault(mk, {}).setdefault(dk, s)
     # ---- emit one record per transition
     recs, meta = [], {}
     for rid, (src, lab, t, rep) in enumerate(trans):
@@ -171,11 +315,12 @@ def check(run):
             stm.append('vf_b("equiv", au::are_units_quantity_equivalent(%s{}, %s{}));' % (X, R))
             stm.append('vf_b("ratio1", au::unit_ratio(%s{}, %s{}) == au::ONE);' % (X, R))
             m["expect_same"] = (src.canonical_type() and t.canonical_type() and rep.canonical_type())
-        # one alias (same dim+mag, different state) and one non-equivalent same-dim state
+        # one alias (same dim+mag, different state) and two non-equivalent same-dim states
         bucket = by_dim[model.dim_key(dim)]
         tk = states[t.key()].sid
         h = rid % len(bucket)
-        alias = other = None
+        alias = None
+        others = []
         for j in range(len(bucket)):
             c = bucket[(h + j) % len(bucket)]
             if c.sid == tk:
@@ -183,68 +328,67 @@ def check(run):
             same = model.mag_key(dm[c.sid][1]) == model.mag_key(mag)
             if same and alias is None:
                 alias = c
-            if not same and other is None:
-                other = c
-            if alias is not None and other is not None:
+            if not same and len(others) < 2 and (not others or j >= len(bucket) // 2):
+                others.append(c)
+            if alias is not None and len(others) == 2:
                 break
         if alias is not None:
             stm.append('vf_b("alias_equiv", au::are_units_quantity_equivalent(%s{}, %s{}));' % (X, alias.expr))
             stm.append('vf_b("alias_ratio1", au::unit_ratio(%s{}, %s{}) == au::ONE);' % (X, alias.expr))
             m["alias"] = alias
-        if other is not None:
-            stm.append('vf_b("other_equiv", au::are_units_quantity_equivalent(%s{}, %s{}));' % (X, other.expr))
-            m["other"] = other
+        for n, other in enumerate(others):
+            stm.append('vf_b("other%d_equiv", au::are_units_quantity_equivalent(%s{}, %s{}));' % (n, X, other.expr))
+        m["others"] = others
         recs.append((rid, stm))
         meta[rid] = m
     ntrans = len(recs)
-    # ---- spellings (makers / singular names / symbols / constants) for atom-op-atom programs
-    sp = []
     rid = ntrans
-    lib_atoms = [a for a in atoms if a.maker]
-    for a, b in itertools.product(lib_atoms, repeat=2):
-        for op in "*/":
-            X = "decltype(%s{} %s %s{})" % (a.cpp, op, b.cpp)
-            forms = ["decltype(%s %s %s)" % (a.maker, op, b.maker),
-                     "decltype(au::make_constant(%s{}) %s au::make_constant(%s{}))" % (a.cpp, op, b.cpp),
-                     "decltype(au::make_constant(%s{} %s %s{}))" % (a.cpp, op, b.cpp)]
-            if b.singular:
-                forms.append("decltype(%s %s %s)" % (a.maker, op, b.singular) if op == "/" else
-                             "decltype(%s * %s)" % (b.singular, a.maker))
-            if a.symbol and b.symbol:
-                forms.append("decltype(%s %s %s)" % (a.symbol, op, b.symbol))
-                forms.append("decltype(au::symbol_for(%s %s %s))" % (a.maker, op, b.maker))
+    # ---- "if and only if" on whole (dim, mag) groups: all pairs (groups of up to 8 states, ring + skip-2 beyond) must be
+    #      equivalent with ratio ONE and freely interconvertible (implicit conversion both ways, value unchanged, data_in)
+    eqv, n_pairs = [], 0
+    for gk in sorted(by_dm):
+        g = by_dm[gk]
+        if len(g) < 2:
+            continue
+        if len(g) <= 8:
+            pairs = list(itertools.combinations(g, 2))
+        else:
+            pairs = [(g[i], g[(i + k) % len(g)]) for i in range(len(g)) for k in (1, 2)]
+        for c0 in range(0, len(pairs), 6):
+            part = pairs[c0:c0 + 6]
             stm = []
-            for j, f in enumerate(forms):
-                stm.append('vf_b("f%d", std::is_same<au::AssociatedUnitT<%s>, %s>::value);' % (j, f, X))
-            sp.append((rid, stm))
-            meta[rid] = {"spelling": "%s %s %s" % (a.name, op, b.name), "forms": forms}
+            for n, (x, y) in enumerate(part):
+                QX, QY = "au::Quantity<%s, int32_t>" % x.expr, "au::Quantity<%s, int32_t>" % y.expr
+                stm.append('vf_b("e%d", au::are_units_quantity_equivalent(%s{}, %s{}) && au::unit_ratio(%s{}, %s{}) == au::ONE && au::unit_ratio(%s{}, %s{}) == au::ONE);'
+                           % (n, x.expr, y.expr, x.expr, y.expr, y.expr, x.expr))
+                stm.append('vf_b("c%d", std::is_convertible<%s, %s>::value && std::is_convertible<%s, %s>::value);' % (n, QX, QY, QY, QX))
+                stm.append('{ %s q = au::make_quantity<%s>(int32_t{12345}); %s r = q; vf_b("v%d", r.in(%s{}) == 12345 && q.data_in(%s{}) == 12345 && q.in(%s{}) == 12345); }'
+                           % (QX, x.expr, QY, n, y.expr, y.expr, y.expr))
+            n_pairs += len(part)
+            eqv.append((rid, stm))
+            meta[rid] = {"eqv": part}
             rid += 1
-    for a in lib_atoms:
-        for k, alias in ((2, "squared"), (3, "cubed"), (-1, "inverse")):
-            X = "decltype(au::pow<%d>(%s{}))" % (k, a.cpp)
-            forms = ["decltype(au::pow<%d>(%s))" % (k, a.maker), "decltype(au::%s(%s))" % (alias, a.maker),
-                     "decltype(au::%s(%s{}))" % (alias, a.cpp),
-                     "decltype(pow<%d>(au::make_constant(%s{})))" % (k, a.cpp)]
-            if a.symbol:
-                forms.append("decltype(pow<%d>(%s))" % (k, a.symbol))
-            if a.singular:
-                forms.append("decltype(au::pow<%d>(%s))" % (k, a.singular))
-            stm = ['vf_b("f%d", std::is_same<au::AssociatedUnitT<%s>, %s>::value);' % (j, f, X)
-                   for j, f in enumerate(forms)]
-            sp.append((rid, stm))
-            meta[rid] = {"spelling": "pow<%d>(%s)" % (k, a.name), "forms": forms}
+    # ---- ... and only if: a state of a DIFFERENT dimension with the same magnitude is never equivalent (kept in records of
+    #      their own: a library that refuses to answer for different dimensions is counted, not judged)
+    xdim = []
+    for (dk, mk), g in sorted(by_dm.items()):
+        partners = [s for d2, s in sorted(by_mag[mk].items()) if d2 != dk][:2]
+        if partners and g[0].depth <= 1:
+            stm = ['vf_b("x%d", au::are_units_quantity_equivalent(%s{}, %s{}));' % (n, g[0].expr, p.expr) for n, p in enumerate(partners)]
+            xdim.append((rid, stm))
+            meta[rid] = {"xdim": (g[0], partners)}
             rid += 1
-        for k, alias in ((2, "sqrt"), (3, "cbrt")):
-            X = "decltype(au::root<%d>(%s{}))" % (k, a.cpp)
-            forms = ["decltype(au::root<%d>(%s))" % (k, a.maker), "decltype(au::%s(%s{}))" % (alias, a.cpp)]
-            stm = ['vf_b("f%d", std::is_same<au::AssociatedUnitT<%s>, %s>::value);' % (j, f, X)
-                   for j, f in enumerate(forms)]
-            sp.append((rid, stm))
-            meta[rid] = {"spelling": "root<%d>(%s)" % (k, a.name), "forms": forms}
-            rid += 1
+    # ---- spellings (makers / singular names / symbols / constants / quantity arithmetic)
+    sp = []
+    for desc, forms, slot in spelling_records(atoms, n_bin):
+        assoc = "au::AssociatedUnitT" if slot == "q" else "au::AssociatedUnitForPointsT"
+        stm = ['vf_b("f%d", std::is_same<%s<%s>, %s>::value);' % (j, assoc, f, X) for j, (f, X) in enumerate(forms)]
+        sp.append((rid, stm))
+        meta[rid] = {"spelling": desc, "forms": forms}
+        rid += 1
     # ---- grouping / order independence on all atom triples
     gr = []
-    for a, b, c in itertools.product(range(n_at), repeat=3):
+    for a, b, c in itertools.product(range(n_bin), repeat=3):
         A, B, C = atoms[a].cpp, atoms[b].cpp, atoms[c].cpp
         stm = ['vf_b("g1", std::is_same<decltype((%s{} * %s{}) * %s{}), decltype(%s{} * (%s{} * %s{}))>::value);'
                % (A, B, C, A, B, C),
@@ -255,34 +399,76 @@ def check(run):
         gr.append((rid, stm))
         meta[rid] = {"group": (atoms[a].name, atoms[b].name, atoms[c].name)}
         rid += 1
-    # ---- library table: every library unit and prefix against the model (dim, mag)
+    # ---- library table: every library unit and prefix against the model (dim, mag), and every library spelling of the
+    #      unit (quantity maker, singular name, symbol, point maker) against the unit type
     lib = []
     units_h, _ = core.lib_headers()
     missing = [h for h in units_h if h not in U]
     if missing:
         raise core.InfraError("library unit headers without a model entry: %s" % missing)
     for u in model.LIB:
-        lib.append((rid, ['vf_kv("u", "{" + vf::unit_json<%s>() + "}");' % u.cpp]))
+        stm = ['vf_kv("u", "{" + vf::unit_json<%s>() + "}");' % u.cpp,
+               'vf_b("maker", std::is_same<au::AssociatedUnitT<std::remove_cv_t<decltype(%s)>>, %s>::value);' % (u.maker, u.cpp),
+               'vf_b("maker_makes", std::is_same<decltype(%s(1)), au::Quantity<%s, int>>::value);' % (u.maker, u.cpp)]
+        if u.singular:
+            stm.append('vf_b("singular", std::is_same<au::AssociatedUnitT<std::remove_cv_t<decltype(%s)>>, %s>::value);' % (u.singular, u.cpp))
+        if u.symbol:
+            stm.append('vf_b("symbol", std::is_same<au::AssociatedUnitT<std::remove_cv_t<decltype(%s)>>, %s>::value);' % (u.symbol, u.cpp))
+            stm.append('vf_b("symbol_makes", std::is_same<decltype(1.5 * %s), au::Quantity<%s, double>>::value);' % (u.symbol, u.cpp))
+        if u.name in PT_MAKERS:
+            stm.append('vf_b("pt_maker", std::is_same<au::AssociatedUnitForPointsT<std::remove_cv_t<decltype(%s)>>, %s>::value);' % (PT_MAKERS[u.name], u.cpp))
+            stm.append('vf_b("pt_maker_makes", std::is_same<decltype(%s(1)), au::QuantityPoint<%s, int>>::value);' % (PT_MAKERS[u.name], u.cpp))
+        lib.append((rid, stm))
         meta[rid] = {"lib": u}
         rid += 1
     for p in model.ALL_PREFIXES:
         pu = model.prefixed(p, U["seconds"])
         lib.append((rid, ['vf_kv("u", "{" + vf::unit_json<%s>() + "}");' % pu.cpp,
                           'vf_b("applier", std::is_same<decltype(au::%s(au::Seconds{})), %s>::value);' % (p[1], pu.cpp),
-                          'vf_b("applier_maker", std::is_same<au::AssociatedUnitT<decltype(au::%s(au::seconds))>, %s>::value);' % (p[1], pu.cpp)]))
+                          'vf_b("applier_maker", std::is_same<au::AssociatedUnitT<decltype(au::%s(au::seconds))>, %s>::value);' % (p[1], pu.cpp),
+                          'vf_b("applier_singular", std::is_same<au::AssociatedUnitT<decltype(au::%s(au::second))>, %s>::value);' % (p[1], pu.cpp),
+                          'vf_b("applier_symbol", std::is_same<au::AssociatedUnitT<decltype(au::%s(au::symbols::s))>, %s>::value);' % (p[1], pu.cpp),
+                          'vf_b("applier_pt", std::is_same<au::AssociatedUnitForPointsT<decltype(au::%s(au::kelvins_pt))>, au::%s<au::Kelvins>>::value);' % (p[1], p[0])]))
         meta[rid] = {"lib": pu}
         rid += 1
-    allrecs = recs + sp + gr + lib
-    cfgs = core.CORNERS if tier == "quick" else core.CFG6
+    # developer aid (used to demonstrate detection of a library slip quickly): VERIF_C02_FOCUS=<regex> keeps only the records whose
+    # descriptor "trans:<path>" / "eqv" / "xdim" / "spelling:<desc>" / "group" / "lib:<unit>" matches; kept records are identical to the full tier's
+    focus = os.environ.get("VERIF_C02_FOCUS")
+    if focus:
+        rx = re.compile(focus)
+
+        def desc_of(m):
+            return ("trans:" + m["t"].path if "t" in m else "eqv" if "eqv" in m else "xdim" if "xdim" in m else
+                    "spelling:" + m["spelling"] if "spelling" in m else "group" if "group" in m else "lib:" + m["lib"].cpp)
+        recs, eqv, xdim, sp, gr, lib = ([r for r in lst if rx.search(desc_of(meta[r[0]]))] for lst in (recs, eqv, xdim, sp, gr, lib))
+        ntrans = len(recs)
+    cheap = eqv + xdim + sp + gr + lib
+    allrecs = recs + cheap
+    # quick: the two corner configurations run everything; g++/c++17 runs the records that are not transitions
+    cfgs = [(c, allrecs) for c in core.CORNERS] + [(core.CFG6[1], cheap)] if tier == "quick" else [(c, allrecs) for c in core.CFG6]
     total_cmp = 0
-    for cfg in cfgs:
-        res, failed = psx.run_dump(cfg, allrecs, os.path.join(run.wd, cfg.name), "c02", PREAMBLE,
-                                   chunk=max(60, len(allrecs) // (core.NCPU * 2) + 1))
+    not_judged = {"cross_dimension_equivalence_question_does_not_compile": 0}
+
+    def viol(cfg, key, what, r, o=None):
+        run.violation(key, "%s: %s" % (cfg, what),
+                      run.write_replay(key, {"kind": "program", "config": str(cfg), "stmts": byid[r], "observed": o}))
+
+    byid = dict(allrecs)
+    for cfg, rl in cfgs:
+        if run.time_left() < 300:
+            run.cov.setdefault("configs_skipped_by_deadline", []).append(str(cfg))
+            continue
+        res, failed = psx.run_dump(cfg, rl, os.path.join(run.wd, cfg.name), "c02", PREAMBLE,
+                                   chunk=max(60, len(rl) // (core.NCPU * 2) + 1)) if rl else ({}, {})
         for r, diag in failed.items():
             m = meta[r]
-            desc = m.get("spelling") or (m["t"].path if "t" in m else str(m))
-            run.violation("C02:does-not-compile:%s:%s" % (cfg.name, desc),
-                          "valid unit expression rejected by %s: %s :: %s" % (cfg, desc, diag))
+            if "xdim" in m:
+                not_judged["cross_dimension_equivalence_question_does_not_compile"] += 1
+                continue
+            desc = m.get("spelling") or (m["t"].path if "t" in m else m["lib"].cpp if "lib" in m else
+                                         "group " + "/".join(m["group"]) if "group" in m else
+                                         "equivalence of " + " | ".join("%s ~ %s" % (x.path, y.path) for x, y in m["eqv"]))
+            viol(cfg, "C02:does-not-compile:%s:%s" % (cfg.name, desc), "valid unit expression rejected: %s :: %s" % (desc, diag), r)
         for r, o in res.items():
             m = meta[r]
             total_cmp += 1
@@ -294,55 +480,86 @@ def check(run):
                 else:
                     ed, em, desc = m["dim"], m["mag"], m["t"].path
                 if got_d != model.dim_key(ed) or got_m != model.mag_key(em):
-                    run.violation("C02:dim-mag:%s" % desc,
-                                  "%s: %s has dim=%s mag=%s, exact algebra gives dim=%s mag=%s" % (
-                                      cfg, desc, got_d, got_m, model.dim_key(ed), model.mag_key(em)),
-                                  run.write_replay("C02:dim-mag:%s" % desc,
-                                                   {"kind": "program", "expr": m["t"].expr if "t" in m else desc,
-                                                    "config": str(cfg), "observed": o}))
-                for k in ("applier", "applier_maker"):
-                    if k in o and not o[k]:
-                        run.violation("C02:prefix-applier:%s" % desc, "%s: prefix applier form differs for %s" % (cfg, desc))
+                    viol(cfg, "C02:dim-mag:%s" % desc, "%s has dim=%s mag=%s, exact algebra gives dim=%s mag=%s" % (
+                        desc, got_d, got_m, model.dim_key(ed), model.mag_key(em)), r, o)
+                for k, v in o.items():
+                    if k.startswith("applier") and not v:
+                        viol(cfg, "C02:prefix-applier:%s:%s" % (k, desc), "prefix applier form %s names a different unit than %s" % (k, desc), r, o)
+                    if k in ("maker", "maker_makes", "singular", "symbol", "symbol_makes", "pt_maker", "pt_maker_makes") and not v:
+                        viol(cfg, "C02:lib-spelling:%s:%s" % (k, desc), "the library's %s spelling of %s (%s) does not name / make that unit" % (
+                            k, desc, getattr(m["lib"], k.split("_")[0], None) or PT_MAKERS.get(m["lib"].name)), r, o)
             if "t" in m:
                 desc = m["t"].path
                 if "equiv" in o:
                     if not o["equiv"] or not o["ratio1"]:
-                        run.violation("C02:equiv:%s" % desc, "%s: '%s' and '%s' have equal exact dim/mag but are not quantity-equivalent / ratio != 1" % (cfg, desc, m["rep"].path))
+                        viol(cfg, "C02:equiv:%s" % desc, "'%s' and '%s' have equal exact dim/mag but are not quantity-equivalent / ratio != 1" % (desc, m["rep"].path), r, o)
                     if m.get("expect_same") and not o["same"]:
-                        run.violation("C02:type-identity:%s" % desc,
-                                      "%s: algebraically equal expressions '%s' and '%s' have different types" % (cfg, desc, m["rep"].path),
-                                      run.write_replay("C02:type-identity:%s" % desc, {"kind": "program", "a": m["t"].expr, "b": m["rep"].expr, "config": str(cfg)}))
+                        viol(cfg, "C02:type-identity:%s" % desc, "algebraically equal expressions '%s' and '%s' have different types" % (desc, m["rep"].path), r, o)
                 if "alias_equiv" in o and not (o["alias_equiv"] and o["alias_ratio1"]):
-                    run.violation("C02:alias-equiv:%s" % desc, "%s: '%s' vs '%s' equal dim/mag but not equivalent" % (cfg, desc, m["alias"].path))
-                if "other_equiv" in o and o["other_equiv"]:
-                    run.violation("C02:false-equiv:%s" % desc, "%s: '%s' vs '%s' differ in magnitude but are reported quantity-equivalent" % (cfg, desc, m["other"].path))
+                    viol(cfg, "C02:alias-equiv:%s" % desc, "'%s' vs '%s' equal dim/mag but not equivalent" % (desc, m["alias"].path), r, o)
+                for n, other in enumerate(m["others"]):
+                    if o.get("other%d_equiv" % n):
+                        viol(cfg, "C02:false-equiv:%s:%s" % (desc, other.path), "'%s' vs '%s' differ in magnitude but are reported quantity-equivalent" % (desc, other.path), r, o)
+            if "eqv" in m:
+                for n, (x, y) in enumerate(m["eqv"]):
+                    for k, why in (("e", "are not quantity-equivalent with unit_ratio ONE"), ("c", "are not implicitly interconvertible (int32_t) in both directions"),
+                                   ("v", "do not convert with factor exactly 1 (12345 -> r.in / q.in / q.data_in)")):
+                        if not o["%s%d" % (k, n)]:
+                            viol(cfg, "C02:group-%s:%s:%s" % ({"e": "equiv", "c": "convertible", "v": "value"}[k], x.path, y.path),
+                                 "'%s' and '%s' have equal exact dim/mag but %s" % (x.path, y.path, why), r, o)
+            if "xdim" in m:
+                x, ps = m["xdim"]
+                for n, p in enumerate(ps):
+                    if o["x%d" % n]:
+                        viol(cfg, "C02:false-equiv-dim:%s:%s" % (x.path, p.path), "'%s' and '%s' have different dimensions (same magnitude) but are reported quantity-equivalent" % (x.path, p.path), r, o)
             if "spelling" in m:
                 for k, v in o.items():
                     if k.startswith("f") and v is False:
-                        run.violation("C02:spelling:%s:%s" % (m["spelling"], m["forms"][int(k[1:])]),
-                                      "%s: spelling %s of %s names a different unit type" % (cfg, m["forms"][int(k[1:])], m["spelling"]))
+                        f, X = m["forms"][int(k[1:])]
+                        viol(cfg, "C02:spelling:%s:%s" % (m["spelling"], f), "spelling %s of %s names a different unit type than %s" % (f, m["spelling"], X), r, o)
             if "group" in m:
                 for k in ("g1", "g2", "g3"):
                     if not o[k]:
-                        run.violation("C02:grouping:%s:%s" % (k, "/".join(m["group"])),
-                                      "%s: product of %s depends on grouping/order (%s)" % (cfg, m["group"], k))
+                        viol(cfg, "C02:grouping:%s:%s" % (k, "/".join(m["group"])), "product of %s depends on grouping/order (%s)" % (m["group"], k), r, o)
+    skipped = run.cov.get("configs_skipped_by_deadline", [])
+    ntraces = sum(ntrans for c, rl in cfgs if rl is allrecs and str(c) not in skipped)
     run.cov.update({
         "states": len(order), "transitions": ntrans,
-        "traces_validated_against_impl": ntrans * len(cfgs),
-        "spelling_programs": len(sp), "grouping_triples": len(gr), "library_units_checked": len(lib),
-        "comparisons": total_cmp, "configs": [str(c) for c in cfgs],
-        "max_depth": maxdepth, "atoms": [a.name for a in atoms],
-        "exhaustive": True,
-        "exhaustive_note": "BFS frontier closed at depth %d over the stated atoms/menus; exponents bounded by |num|<=%d, den in %s" % (maxdepth, MAXNUM, DENS),
+        "traces_validated_against_impl": ntraces,
+        "spelling_programs": len(sp), "spelling_forms": sum(len(meta[r]["forms"]) for r, _ in sp), "grouping_triples": len(gr), "library_units_checked": len(lib),
+        "equivalence_groups": sum(1 for g in by_dm.values() if len(g) > 1), "equivalence_pairs": n_pairs, "cross_dimension_nonequivalence_records": len(xdim),
+        "state_x_state_operands": [o[0] for o in operands],
+        "comparisons": total_cmp, "configs": ["%s%s" % (c, "" if rl is allrecs else " (equivalence groups, spellings, grouping, library table only)") for c, rl in cfgs],
+        "max_depth": maxdepth, "atoms": [a.name for a in atoms[:n_bin]], "prefixed_start_states": [a.name for a in atoms[n_bin:]],
+        "exhaustive": "configs_skipped_by_deadline" not in run.cov and not focus, "focus": focus,
+        "exhaustive_note": "BFS frontier closed at depth %d over the stated atoms/menus (state x state operands at depth 0 and, at depth 1, from states over the bases m, s, ft; "
+                           "prefixed start states expanded one level); exponents bounded by |num|<=%d, den in %s; equivalence: all pairs inside every (dim, mag) group of up to 8 "
+                           "states, ring + skip-2 pairs in larger groups" % (maxdepth, MAXNUM, DENS_C02),
+        "not_judged": not_judged,
         "samples": [{"path": t.path, "expr": t.expr} for (_, _, t, _) in trans[:: max(1, ntrans // 6)]][:8],
     })
-    run.assumptions += ["vf/model.py unit table (SI/NIST definitions) and exponent-vector algebra are the reference",
-                        "documented ordering limitation: no two distinct named units of identical dim/mag/origin in one product"]
+    run.assumptions += ["vf/model.py unit table (SI/NIST definitions, and the maker / singular / symbol names of every library unit) and exponent-vector algebra are the reference",
+                        "documented ordering limitation: no two distinct named units of identical dim/mag/origin in one product",
+                        "value arithmetic whose result unit is trivial (no dimension, magnitude ONE; e.g. meters(1.0) / meters(2.0), hertz(1.0) * seconds(2.0)) returns a raw number by design: "
+                        "those quantity spellings are left out (the unit-type / maker / symbol / constant spellings of the same product are kept)",
+                        "the dim/mag read-out is compared as a sorted exponent vector; pack order (canonical form) is observed only through std::is_same between spellings"]
 
 
 def replay(path):
     import json
     r = json.load(open(path))
-    print(json.dumps(r, indent=1))
-    print("re-run: bin/check C02 --tier %s (program-space replay artefacts are regenerated deterministically)" % r.get("tier", "quick"))
+    if not r.get("stmts"):
+        print(json.dumps(r, indent=1))
+        print("no program recorded; re-run: bin/check C02 --tier %s" % r.get("tier", "quick"))
+        return 0
+    cfg = [c for c in core.CFG6 if str(c) == r.get("config")]
+    cfg = cfg[0] if cfg else core.GXX14
+    wd = os.path.join(core.BUILD, "C02", "replay")
+    res, failed = psx.run_dump(cfg, [(0, r["stmts"])], wd, "rp", PREAMBLE)
+    print("recorded:", r.get("observed"))
+    print("observed now:", res.get(0), failed)
+    was_compile_failure = r.get("observed") is None
+    if (failed and was_compile_failure) or (not failed and not was_compile_failure and res.get(0) == dict(r["observed"], id=0)):
+        print("VIOLATION property=C02 replay=%s" % path)
+        return 1
     return 0
